@@ -144,7 +144,7 @@ SPECS = {
     "YAEP_NONTERM_DERIVATION": [["L[(nonterm_get(i)).symb.derivation_p] == 0", "strict_p != 0"],
                                 # the start symbol of the user's grammar (first symbol of the first rule, `$S : <start> $eof'); `$S' itself always derives
                                 # `error $eof' and is not the documented subject of the check
-                                ["re:^L\\[\\((?!L\\[\\(L\\[@grammar\\]\\)\\.grammar\\.axiom\\]\\)).*\\.symb\\.derivation_p\\] == 0$", "strict_p == 0"]],
+                                ["re:^L\\[\\(L\\[\\(L\\[\\(L\\[\\([^()]*\\)\\.rules\\.first_rule\\]\\)\\.rule\\.rhs\\]\\)(?:\\[0\\])?\\]\\)\\.symb\\.derivation_p\\] == 0$", "strict_p == 0"]],
     "YAEP_LOOP_NONTERM": [["L[(nonterm_get(i)).symb.u.symb.u.nonterm.loop_p] != 0"]],
     "YAEP_DESCRIPTION_SYNTAX_ERROR_CODE": [[]],
 }
@@ -156,6 +156,19 @@ for _spec in SPECS["YAEP_NONTERM_DERIVATION"]:
             SPEC_TEXT[_c] = "<the start symbol of the grammar, not `$S'>.derivation_p == 0"
 
 DEFINING = ["yaep_read_grammar", "set_sgrammar"]
+
+# conditions on the callbacks' results that every site is under: the loops over terminals / rules / right-hand sides
+LOOP_GUARDS = set(["read_terminal() != 0", "read_terminal() == 0", "read_rule() != 0", "read_rule() == 0"])
+# further conditions on the input a site may be under: the earlier checks of the same element passed, the list that is checked exists
+ALLOWED_EXTRA = {
+    "YAEP_REPEATED_TERM_DECL": [r"^L\[&out0\(read_terminal\)\] >= 0$"],
+    "YAEP_REPEATED_TERM_CODE": [r"^L\[&out0\(read_terminal\)\] >= 0$", r"^symb_find_by_repr\(read_terminal\(\)\) == 0$", r"^symb_find_by_code\(L\[&out0\(read_terminal\)\]\) != 0$"],
+    "YAEP_TERM_IN_RULE_LHS": [r"^symb_find_by_repr\(read_rule\(\)\) != 0$"],
+    "YAEP_FIXED_NAME_USAGE": [r"^symb_find_by_repr\(read_rule\(\)\) != 0$", r"^L\[\(symb_find_by_repr\(read_rule\(\)\)\)\.symb\.term_p\] == 0$", r"^L\[\(L\[&out0\(read_rule\)\]\)\] != 0$",
+                              r"^symb_find_by_repr\(L\[\(L\[&out0\(read_rule\)\]\)\]\) != 0$"],
+    "YAEP_INCORRECT_SYMBOL_NUMBER": [r"^L\[&out3\(read_rule\)\] != 0$", r"^L\[\(L\[&out0\(read_rule\)\]\)\] == 0$"],
+    "YAEP_REPEATED_SYMBOL_NUMBER": [r"^L\[&out3\(read_rule\)\] != 0$", r"^L\[\(L\[&out0\(read_rule\)\]\)\] == 0$"],
+}
 
 
 def _has(conds, c):
@@ -208,6 +221,15 @@ def rule_code_table(ctx, rep, config="c-lib"):
                 ok = si
                 break
         if ok is not None:
+            # the predicate is not narrowed by a further condition on what the callbacks delivered (beyond `the earlier checks passed' and the loop guards)
+            import re as _re
+            narrowing = [c for c in conds if not any(_has([c], x) for x in SPECS[cname][ok]) and ("&out" in c or "read_rule()" in c or "read_terminal()" in c)
+                         and c not in LOOP_GUARDS and not any(_re.search(rx, c) for rx in ALLOWED_EXTRA.get(cname, []))]
+            if narrowing:
+                rep.violation("C10-codes", key, "%s is raised only under the additional condition %s on the definition being read: the documented defect is not reported "
+                              "when that condition is false (the grammar is accepted)" % (cname, narrowing), where=i.where(), witness=[i.where()] + narrowing)
+                matched.add((cname, ok))
+                continue
             modes.setdefault((cname, ok), []).append((key, i, [c for c in conds if "strict_p" in _atoms(c)]))
             matched.add((cname, ok))
             rep.ok("C10-codes", key, sample={"site": i.where(), "code": cname, "controlled_by": SPECS[cname][ok]})
